@@ -77,16 +77,32 @@ def params_src(sig, default_of=lambda n: "d_" + n):
   return ", ".join(out)
 
 
-def ret_tuple_src(sig, first=None):
+def ret_tuple_src(sig, first=None, capture=()):
+  """the callee's frame as a tuple; parameters in `capture` are read through a closure (`(lambda: p)()`), which makes
+  them cell variables of the callee"""
   names = ([first] if first else []) + all_names(sig)
   if not names:
     return "()"
+  names = ["(lambda: %s)()" % n if n in capture else n for n in names]
   return "(" + ", ".join(names) + ("," if len(names) == 1 else "") + ")"
 
 
-def args_src(call):
+CALL_STYLES = ("plain", "plain", "plain", "star", "dstar", "both", "empty")
+
+
+def args_src(call, style="plain"):
+  """the call's arguments; the styles spell the SAME call with literal unpacking: positionals as `*(p0, p1)`, keywords
+  as `**{'k': v}`, or an empty `**{}` appended — CPython binds all of them exactly like the plain spelling"""
   npos, kws = call
-  return ", ".join(["p%d" % i for i in range(npos)] + ["%s=k_%s" % (k, k) for k in kws])
+  pos = ["p%d" % i for i in range(npos)]
+  kw = ["%s=k_%s" % (k, k) for k in kws]
+  if style in ("star", "both") and pos:
+    pos = ["*(%s,)" % ", ".join(pos)]
+  if style in ("dstar", "both") and kws:
+    kw = ["**{%s}" % ", ".join("'%s': k_%s" % (k, k) for k in kws)]
+  if style == "empty":
+    kw = kw + ["**{}"]
+  return ", ".join(pos + kw)
 
 
 def call_repr(kind, sig, call):
@@ -486,6 +502,12 @@ def gen_item(rng, big=False, kind=None):
   it = {"kind": kind, "sig": sig, "calls": calls}
   if kind == "init" and rng.random() < 0.4:
     it["with_new"] = True
+  # spelling variants that do not change what CPython binds: some parameters read through a closure in the callee,
+  # and calls written with literal * / ** unpacking
+  if rng.random() < 0.4:
+    names = [n for n in all_names(sig) if n not in ("self", "cls")]
+    it["capture"] = sorted(rng.sample(names, rng.randrange(1, len(names) + 1))) if names else []
+  it["styles"] = [rng.choice(CALL_STYLES) for _ in calls]
   return it
 
 
@@ -510,7 +532,7 @@ def module_source(items):
   where = []
   for ii, it in enumerate(items):
     kind, sig = it["kind"], it["sig"]
-    ps, rt = params_src(sig), ret_tuple_src(sig)
+    ps, rt = params_src(sig), ret_tuple_src(sig, capture=it.get("capture", ()))
     if kind == "func":
       L.append("def f%d(%s):" % (ii, ps))
       L.append("  return %s" % rt)
@@ -532,7 +554,7 @@ def module_source(items):
       if kind != "init":
         L.append("o%d = C%d()" % (ii, ii))
     for ci, call in enumerate(it["calls"]):
-      a = args_src(call)
+      a = args_src(call, (it.get("styles") or ["plain"] * (ci + 1))[ci])
       rn = "r%d_%d" % (ii, ci)
       if kind == "func":
         L.append("%s = f%d(%s)" % (rn, ii, a))
